@@ -48,7 +48,7 @@ def run(ctx):
     t = ctx.tier
     gpath, g, r = vf.tlc_graph(ctx, 'H2Conn', 'MC_C13_%s.cfg' % t, 'c13graph', timeout=1800)
     rng = random.Random(ctx.seed)
-    sample = 0.008 if t == 'quick' else 0.04
+    sample = 0.012 if t == 'quick' else 0.03
     # only edges taken from a live connection are informative (after a connection error everything is discarded)
     live = lambda e: g['nodes'][e[0]]['ga'] != 'error'
     epaths, total = vf.edge_cover_paths(g, rng, want_edge=live, sample=sample, max_len=9)
@@ -69,7 +69,8 @@ def run(ctx):
             if e[2] == 'ClientFrame':
                 st['f'] = e[3]
                 sid = e[3][1]
-                st['trailer'] = bool(sid in (1, 2, 3, 5) and src['inMap'].get(str(sid)))
+                im = src['inMap']   # a function on 1..n is printed as a sequence by TLC
+                st['trailer'] = bool(sid in (1, 2, 3, 5) and (im[sid - 1] if isinstance(im, list) else im.get(str(sid))))
             else:
                 st['finish'] = e[3][0]
             steps.append(st)
@@ -79,7 +80,7 @@ def run(ctx):
     vout = os.path.join(ctx.scratch, 'c13_out.json')
     vf.write_graph(paths, vin)
     drv = ctx.build_driver('c13driver')
-    ctx.run_driver(drv, [vin, vout], timeout=2400)
+    ctx.run_driver(drv, [vin, vout], timeout=3000, env={'VF_ADVMAX': '1' if t == 'quick' else '2'})
     obs = vf.read_json(vout)
     nsteps = 0
     nerr = 0
@@ -128,7 +129,7 @@ def run(ctx):
            'reactions_accepted_by_rfc_latitude_only': diverge, 'paths_cut_at_unobservable_step_inside_open_header_block': unobservable[0],
            'rule': 'paths from the initial state covering a seeded sample of the live edges of the TLC graph (frame alphabet: SETTINGS ok/ack/bad, HEADERS/CONTINUATION with '
                    'END_STREAM/END_HEADERS variants, malformed block, self-dependency, DATA, RST_STREAM, WINDOW_UPDATE ok/zero/overflow, PRIORITY ok/self, PUSH_PROMISE, PING ok/ack/wrong size/on a stream, GOAWAY from the client (graceful state: newer streams discarded, no second GOAWAY on a later connection error), unknown; '
-                   'streams 0,1,2,3,5; handler completion as an environment action)'}
+                   'streams 0,1,2,3 with a concurrency limit of 1 in the quick tier, 0,1,2,3,5 with a limit of 2 in the thorough tier; handler completion as an environment action)'}
     return ctx.finish(cov, assumptions=['the RFC-permitted set is derived from the tabulated reaction plus the two latitude rules (not an independent transcription of RFC 9113)',
                                         'the scripted client waits for a PING acknowledgement after every frame: reset-in-flight states are not reached',
                                         '"handler started" is observed as arrival at the gated backend behind the real reverse-proxy handler'])
